@@ -313,7 +313,15 @@ class AppResponse(object):
 
     def __next__(self):
         """Iterate over the app response."""
-        return next(self.iter_response)
+        chunk = next(self.iter_response)
+        if not isinstance(chunk, bytes):
+            # PEP 3333: the application returns an iterable yielding
+            # bytestrings. Only a streamed (or otherwise uncollapsed) body
+            # can get here with anything else; treat it like any other
+            # failure of the body iterator.
+            raise TypeError(
+                'response.body chunk %r is not a byte string.' % (chunk,))
+        return chunk
 
     def close(self):
         """Close and de-reference the current request and response.
